@@ -45,14 +45,14 @@ func init() { register(c11{}) }
 func (c11) ID() string { return "C11" }
 func (c11) Runs(tier string) int {
 	if tier == "quick" {
-		return len(c11AuxEdits()) + len(c11IdxEdits(tier)) + 7000
+		return len(c11AuxEdits()) + len(c11IdxEdits(tier)) + c11SamFields*len(c11SamVals) + 7000
 	}
 	return 0
 }
 func (c11) New() interface{} { return &c11Case{} }
 func (c11) CrashProne() bool { return true }
 func (c11) Rule() string {
-	return "targets: bgzf, bam, sam (text: reader, record/aux/CIGAR/header parsers), bai, csi, tabix, fai, fasta (NewIndex + File.SeqRange), cram (definition, containers, blocks, Value); a valid encoding (independent encoders for BGZF/BAM/CRAM, the library's own writers for SAM text and the indexes) is stored on a simulated file, hit by 1..4 stored-state faults {bit flip, byte substitution, truncation, zeroed 512-byte sector, misdirected sector, duplicated tail} and consumed as a stream with short reads and optionally a read error, BGZF/BAM with rd>1 under tape-chosen schedules. Oracle: no panic in any goroutine, no deadlock/livelock, no fatal runtime error or 30 s stall of the worker; every value returned without error is passed to the library's accessors, formatters, writers and index builders, which must not panic either. Two enumerations run before the seeded cases: 960 single structural edits of one BAM record's auxiliary area, and every 4-byte window (quick: every window of the first 200 bytes and the aligned ones up to byte 600; thorough: all) of one BAI, one CSI and one tabix image overwritten with each of 6 boundary values. Arbitrary byte strings far from a valid encoding are NOT explored. non-trivial: the decoder read at least one faulted byte and the outcome differs from the fault-free outcome; distinct = (case, schedule signature)"
+	return "targets: bgzf, bam, sam (text: reader, record/aux/CIGAR/header parsers), bai, csi, tabix, fai, fasta (NewIndex + File.SeqRange), cram (definition, containers, blocks, Value); a valid encoding (independent encoders for BGZF/BAM/CRAM, the library's own writers for SAM text and the indexes) is stored on a simulated file, hit by 1..4 stored-state faults {bit flip, byte substitution, truncation, zeroed 512-byte sector, misdirected sector, duplicated tail} and consumed as a stream with short reads and optionally a read error, BGZF/BAM with rd>1 under tape-chosen schedules. Oracle: no panic in any goroutine, no deadlock/livelock, no fatal runtime error or 30 s stall of the worker; every value returned without error is passed to the library's accessors, formatters, writers and index builders, which must not panic either. Enumerations run before the seeded cases: 960 single structural edits of one BAM record's auxiliary area, and every 4-byte window (quick: every window of the first 200 bytes and the aligned ones up to byte 600; thorough: all) of one BAI, one CSI, one tabix image and one uncompressed BAM stream (header and records, wrapped into valid BGZF members afterwards) overwritten with each of 6 boundary values; and every column of a SAM record line (plus an appended field) replaced by each of 66 boundary spellings of numbers, names, CIGARs, sequences and aux fields. Arbitrary byte strings far from a valid encoding are NOT explored. non-trivial: the decoder read at least one faulted byte and the outcome differs from the fault-free outcome; distinct = (case, schedule signature)"
 }
 
 // "-inner" targets apply the faults to the payload BEFORE it is wrapped in a
@@ -122,8 +122,14 @@ func c11IdxEdits(tier string) []c11IdxEdit {
 		return l
 	}
 	l := []c11IdxEdit{}
-	for _, tg := range []string{"bai", "csi", "tabix"} {
-		n := len(genValid(tg, c11IdxSeed))
+	for _, tg := range []string{"bai", "csi", "tabix", "bam-inner"} {
+		var n int
+		switch tg {
+		case "bam-inner":
+			n = len(bamStream(c11IdxSeed, nil))
+		default:
+			n = len(genValid(tg, c11IdxSeed))
+		}
 		for p := 0; p+4 <= n; p++ {
 			if tier == "quick" && (p >= 600 || p >= 200 && p%4 != 0) {
 				continue
@@ -137,6 +143,47 @@ func c11IdxEdits(tier string) []c11IdxEdit {
 	return l
 }
 
+// c11SamVals are the replacement values of the enumerated SAM field edits:
+// every one is tried in every column of a record line (and as an extra
+// trailing aux field), so numeric, name, CIGAR, sequence and aux parsers all
+// see each other's boundary syntax.
+var c11SamVals = []string{
+	"", "*", "=", "0", "-1", "+5", " 5", "1e3", "0x10", "255", "256", "65535", "65536",
+	"2147483647", "2147483648", "-2147483648", "-2147483649", "4294967295", "4294967296",
+	"536870911", "536870912", "9223372036854775807", "9223372036854775808", "99999999999999999999",
+	"0M", "1", "M", "5Z", "-1M", "268435455M", "268435456M", "4294967296M", "3M2", "1M1B5M", "10B",
+	"acgtn", "N.", "ACGT=", "\x7f", " ",
+	"XX:i:", "XX:i:99999999999", "XX:i:-99999999999", "XX:B:", "XX:B:c", "XX:B:c,", "XX:B:c,300", "XX:B:C,-1", "XX:B:f,1e400", "XX:B:Z,1", "XX:B:i,1,,2",
+	"XX:Z", "XX:", "X:i:1", "XXX:i:1", "XX:H:1", "XX:H:GG", "XX:A:", "XX:A:ab", "XX:f:", "XX:f:nan", "XX:f:1e400", "XX:Q:1", "XX::1", ":::", "XX:i:1:2",
+}
+
+const c11SamFields = 13 // 11 mandatory columns, the first aux field, and an appended field
+
+// samFieldEdit replaces column field of the first record line of a SAM text.
+func samFieldEdit(img []byte, field, val int) []byte {
+	v := c11SamVals[val%len(c11SamVals)]
+	lines := strings.SplitAfter(string(img), "\n")
+	for i, l := range lines {
+		if l == "" || l[0] == '@' {
+			continue
+		}
+		nl := strings.HasSuffix(l, "\n")
+		cols := strings.Split(strings.TrimSuffix(l, "\n"), "\t")
+		switch {
+		case field < len(cols) && field < c11SamFields-1:
+			cols[field] = v
+		default:
+			cols = append(cols, v)
+		}
+		lines[i] = strings.Join(cols, "\t")
+		if nl {
+			lines[i] += "\n"
+		}
+		break
+	}
+	return []byte(strings.Join(lines, ""))
+}
+
 func (c11) Gen(t *Tape, tier string, run int) interface{} {
 	if edits := c11AuxEdits(); run < len(edits) {
 		e := edits[run]
@@ -145,6 +192,9 @@ func (c11) Gen(t *Tape, tier string, run int) interface{} {
 	if k := run - len(c11AuxEdits()); k >= 0 && k < len(c11IdxEdits(tier)) {
 		e := c11IdxEdits(tier)[k]
 		return &c11Case{Target: e.target, GenSeed: c11IdxSeed, Faults: []StoreFault{{Kind: "int32-at", A: e.pos, B: e.v}}, RD: 1, Kind: "read+seek"}
+	}
+	if k := run - len(c11AuxEdits()) - len(c11IdxEdits(tier)); k >= 0 && k < c11SamFields*len(c11SamVals) {
+		return &c11Case{Target: "sam", GenSeed: c11IdxSeed, Faults: []StoreFault{{Kind: "sam-field", A: k / len(c11SamVals), B: k % len(c11SamVals)}}, RD: 1, Kind: "read"}
 	}
 	targets := c11Targets
 	if only := os.Getenv("HTSV_C11_ONLY"); only != "" {
@@ -225,6 +275,8 @@ func applyFaults(img []byte, fs []StoreFault) ([]byte, []bool) {
 			if a+4 <= len(out) {
 				binary.LittleEndian.PutUint32(out[a:], c11IdxVals[f.B%len(c11IdxVals)])
 			}
+		case "sam-field": // enumerated: field A of the first record line becomes value B
+			out = samFieldEdit(out, f.A, f.B)
 		case "aux-edit":
 			// enumerated structural edit, handled by the bam-aux-enum target
 		case "aux-retype":
@@ -645,6 +697,7 @@ func decode(x *Exec, c *c11Case, file *File) (outcome string) {
 		exerciseHeader(h)
 		var out bytes.Buffer
 		bw, _ := bam.NewWriter(&out, h, 1)
+		var sidx bam.Index
 		n := 0
 		for {
 			rec, err := sr.Read()
@@ -654,7 +707,7 @@ func decode(x *Exec, c *c11Case, file *File) (outcome string) {
 				}
 				return fmt.Sprintf("records %d:%s", n, errKind(err))
 			}
-			exerciseRecord(rec, h, bw, nil)
+			exerciseRecord(rec, h, bw, &sidx)
 			n++
 			if n > 10000 {
 				return "too many records"
